@@ -3,6 +3,7 @@ from .hist import FAMILY, MIX
 from .hist_arith import HistArith
 from .hist_sat import HistSat
 from .hist_io import HistIO
+from .hist_trav import HistTrav
 
 _ARITH_MIX = {'new': 3, 'add_gate': 5, 'gadget': 22, 'copy': 1, 'rename': 1, 'connect': 2, 'mark_output': 1,
               'into_bench': 1, 'remove_gate': 1, 'replace_inputs': 1, 'set_outputs': 1}
@@ -15,10 +16,12 @@ MIX['C16'] = {'new': 4, 'add_gate': 7, 'rename': 4, 'replace_subcircuit': 2, 'co
               'remove_gate': 1, 'into_bench': 1, 'codec': 12, 'bitio': 3, 'dictio': 4, 'db_history': 3}
 MIX['C11'] = {'new': 4, 'add_gate': 7, 'rename': 4, 'connect': 2, 'mark_output': 2, 'set_outputs': 1, 'remove_gate': 1,
               'replace_inputs': 1, 'into_bench': 1, 'gadget': 1, 'bench_roundtrip': 12, 'bench_layout': 6}
+MIX['C20'] = {'new': 4, 'add_gate': 8, 'rename': 1, 'connect': 3, 'remove_gate': 1, 'mark_output': 2, 'set_outputs': 1,
+              'replace_subcircuit': 1, 'traverse': 22}
 FAMILY.update({'tseytin': 'C05', 'circuit_sat': 'C05', 'miter': 'C13', 'gadget': None})
 
 
-class HistAll(HistArith, HistSat, HistIO):
+class HistAll(HistArith, HistSat, HistIO, HistTrav):
     def gen(self, rng, prop, tier, run_index):
         run = super().gen(rng, prop, tier, run_index)
         if prop in ('C07', 'C08', 'C09'):
